@@ -33,8 +33,7 @@ inductive Chk where
   | intArg (i : Idx)     -- check_int_arg(al, i, name)
   | uintArg (i : Idx)    -- check_uint_arg(al, i, name)
   | zeroFunc (i : Idx)   -- check_zero_func_args(al, i)
-  | derivArg             -- check_deriv_arg(al, n, min, max)   (n, min, max opaque)
-  | bessel               -- check_bessel_args(al, flags, name) (always about argument 0)
+  | bessel (derivIntMin : Bool)   -- check_bessel_args(al, flags, name): about argument 0; the flag is `flags & DERIV_INT_MIN`
   | coupling             -- check_coupling_args(al, names)
   deriving DecidableEq, Repr, Inhabited
 
@@ -87,6 +86,7 @@ structure Args where
   raNaN : Nat → Bool      -- isnan(ra[i])
   intOk : Nat → Bool      -- INT_MIN <= ra[i] <= INT_MAX && (int)ra[i] == ra[i]   (range test first since fba410b)
   uintOk : Nat → Bool     -- 0 <= ra[i] <= UINT_MAX && (unsigned)ra[i] == ra[i]
+  raInt : Nat → Int       -- (int)ra[i]   (meaningful when intOk i)
   digp : Bool             -- al->dig != NULL
   dig : Nat → Bool        -- al->dig[i] != 0
   d0 : Nat → Bool         -- NaN bits of what the caller left in derivs[]
@@ -177,20 +177,31 @@ def checkZeroFuncArgs (a : Args) (m : Mode) (i : Nat) (s : St) : Bool × St :=
     (true, if r.1 then r.2.derivError else r.2)
   else (true, s)
 
-/-- `check_deriv_arg`: the comparison of the int with its bounds is opaque -/
-def checkDerivArg (o : Oracle) (s : St) : Bool × St :=
-  let s' := { s with tc := s.tc + 1 }
-  if o.cond s.tc then (true, s') else (false, s'.derivError)
+def intMin : Int := -2147483648
+def intMax : Int := 2147483647
+
+/-- `check_deriv_arg(al, arg, min, max)`: `if (arg < min) {deriv_error; return 0;} if (arg > max) {deriv_error; return 0;} return 1;` -/
+def checkDerivArg (arg lo hi : Int) (s : St) : Bool × St :=
+  if arg < lo then (false, s.derivError)
+  else if arg > hi then (false, s.derivError)
+  else (true, s)
 
 /-- `if (!r) return 0; …continue with k` -/
 def thenChk (r : Bool × St) (k : St → Bool × St) : Bool × St := if r.1 then k r.2 else (false, r.2)
 
-def checkBesselArgs (o : Oracle) (a : Args) (m : Mode) (s : St) : Bool × St :=
+/-- `deriv_min = INT_MIN + ((flags & DERIV_INT_MIN) != 0 ? 0 : 1)` -/
+def derivMin (flag : Bool) : Int := intMin + (if flag then 0 else 1)
+
+/-- `check_bessel_args(al, flags, name)`: with n = (int)al->ra[0],
+`if (!check_int_arg(al, 0, name)) return 0;
+ if (al->derivs) { if ((al->hes && !check_deriv_arg(al, n, INT_MIN + 2, INT_MAX - 2)) || !check_deriv_arg(al, n, deriv_min, INT_MAX - 1)) return 0; } return 1;` -/
+def checkBesselArgs (a : Args) (m : Mode) (flag : Bool) (s : St) : Bool × St :=
   thenChk (checkIntArg a m 0 s) fun s1 =>
     if m.derivs then
       if m.hes then
-        thenChk (checkDerivArg o s1) fun s2 => thenChk (checkDerivArg o s2) fun s3 => (true, s3)
-      else thenChk (checkDerivArg o s1) fun s3 => (true, s3)
+        thenChk (checkDerivArg (a.raInt 0) (intMin + 2) (intMax - 2) s1) fun s2 =>
+          thenChk (checkDerivArg (a.raInt 0) (derivMin flag) (intMax - 1) s2) fun s3 => (true, s3)
+      else thenChk (checkDerivArg (a.raInt 0) (derivMin flag) (intMax - 1) s1) fun s3 => (true, s3)
     else (true, s1)
 
 /-- `for (i = from; i < n; ++i) if (!check_int_arg(al, i, …)) return 0; return 1;` -/
@@ -208,8 +219,7 @@ def evalChk (o : Oracle) (a : Args) (m : Mode) (e : Env) (c : Chk) (s : St) : Bo
   | .intArg i => checkIntArg a m (i.val e) s
   | .uintArg i => checkUintArg a m (i.val e) s
   | .zeroFunc i => checkZeroFuncArgs a m (i.val e) s
-  | .derivArg => checkDerivArg o s
-  | .bessel => checkBesselArgs o a m s
+  | .bessel f => checkBesselArgs a m f s
   | .coupling => checkCouplingArgs a m s
 
 def evalCond (o : Oracle) (a : Args) (m : Mode) (e : Env) : Cond → St → Bool × St
